@@ -7,7 +7,7 @@
    A history is any list of declarations (commodity, price, target), in any order.            *)
 From Coq Require Import ZArith List Bool Permutation.
 From Knut Require Import Model.Str Model.Dec Model.Price Model.Journal Model.Ledger Model.Pipeline.
-From Knut Require Import Spec.PriceSpec Proofs.SMapProofs Proofs.PriceProofs.
+From Knut Require Import Spec.PriceSpec Proofs.SMapProofs Proofs.PriceProofs Proofs.RecipProofs.
 Import ListNotations.
 Open Scope Z_scope.
 
@@ -38,6 +38,12 @@ Print Assumptions C12_insert_never_panics.
 Theorem C12_latest : forall h ps c t, build h = Some ps -> stored ps t c = latest h c t.
 Proof. exact build_latest. Qed.
 Print Assumptions C12_latest.
+
+(* the reciprocal, stated without the division algorithm: 10^16/p rounded to the nearest integer,
+   ties away from zero, as a number of 16 decimals, then cut toward zero to 8 decimals *)
+Theorem C12_reciprocal : forall p, is_zero p = false -> is_recip p (recip p).
+Proof. exact recip_is_recip. Qed.
+Print Assumptions C12_reciprocal.
 
 (* the same, read explicitly: if "c p t" is followed by no declaration of {c, t} then p and its
    reciprocal are what is stored, whatever preceded *)
@@ -73,8 +79,14 @@ Theorem C12_chain : forall ps v np c x,
                forall n, In n (v :: path) -> sm_has np n = true.
 Proof. exact normalize_chain. Qed.
 Print Assumptions C12_chain.
-(* not proved: that the path is a shortest one (breadth-first order); C12_direct is the
-   length-1 instance of it, which is the part the property text states. *)
+(* ... and that path is a shortest one (breadth-first): no chain of fewer declarations connects
+   v and c.  C12_direct is the length-1 instance. *)
+Theorem C12_chain_shortest : forall ps v np c x,
+  normalize ps v = Some np -> np_price np c = Some x ->
+  exists path, is_path ps v path c x /\ NoDup (v :: path) /\
+               forall path' x', is_path ps v path' c x' -> (length path <= length path')%nat.
+Proof. exact normalize_shortest. Qed.
+Print Assumptions C12_chain_shortest.
 
 (* every commodity connected to v gets a price ... *)
 Theorem C12_reachable : forall ps v np c,
